@@ -8,8 +8,12 @@ NOTE = ('Bounded: shapes (N, L, r, masks, program shapes) are enumerated, every 
         'reference semantics (validated against dense matrices on every run); standard stabilizer theory linking '
         'group-level facts to density matrices; translator validation of the kernel interpreter against the numba build.')
 CLAIMED = {}
+EXTRA = (' In addition (DESIGN.md section 6): call-history and argument-form obligations decided the same way -- an argument '
+         'aliasing its receiver, the same object on both sides of an operator, reuse of an object after an intermediate '
+         'call, request / modify the result / request again, operands stored as non-contiguous views, unsigned and '
+         'numpy-integer arguments. One model per harness instance is also replayed on the real build (witness validation).')
 def claim(pid, text, section, level='model_checking', technique=TECH, note=NOTE):
-    CLAIMED[pid] = dict(text=text, section=section, level=level, technique=technique, note=note)
+    CLAIMED[pid] = dict(text=text + EXTRA, section=section, level=level, technique=technique, note=note)
 exec(open(os.path.join(V, 'tools', 'claims.py')).read())
 props = [json.loads(l) for l in open(os.path.join(V, 'properties.jsonl'))]
 NA = json.load(open(os.path.join(V, 'tools', 'not_applicable.json')))
